@@ -384,6 +384,16 @@ def gen_tree(r, profile=None, valid=True, **opt):
                      "vdr_in_max_int": [r.choice([0, 1, 2, 100]) if cdt == 0 else 0 for _ in range(3)], "vdr_in_max": [edge(r, clen) for _ in range(3)],
                      "linear_deadzone_slope_int": [r.choice([0, 1, 5]) if cdt == 0 else 0 for _ in range(3)], "linear_deadzone_slope": [edge(r, clen) for _ in range(3)],
                      "linear_deadzone_threshold_int": [r.choice([0, 1, 9]) if cdt == 0 else 0 for _ in range(3)], "linear_deadzone_threshold": [edge(r, clen) for _ in range(3)]}
+            if mel and "mel" not in opt and cdt == 0 and r.random() < 0.4:
+                # MEL identity except ONE element of one component: every field takes part in the MEL / FEL decision
+                fld = r.choice(["nlq_offset", "vdr_in_max_int", "vdr_in_max", "linear_deadzone_slope_int", "linear_deadzone_slope", "linear_deadzone_threshold_int", "linear_deadzone_threshold"])
+                cur = q[fld][0]
+                q[fld] = list(q[fld])
+                frac = fld in ("vdr_in_max", "linear_deadzone_slope", "linear_deadzone_threshold")
+                cand = [0, 1, (1 << clen) - 1] if frac else [0, 1, 2, 7]
+                cand = [v for v in cand if v != cur and (not frac or v < (1 << clen))]
+                if cand:
+                    q[fld][r.randrange(3)] = r.choice(cand)
             m["nlq"] = q
             is_mel = (q["nlq_offset"] == [0] * 3 and q["vdr_in_max_int"] == [1] * 3 and q["vdr_in_max"] == [0] * 3 and q["linear_deadzone_slope_int"] == [0] * 3
                       and q["linear_deadzone_slope"] == [0] * 3 and q["linear_deadzone_threshold_int"] == [0] * 3 and q["linear_deadzone_threshold"] == [0] * 3)
